@@ -150,3 +150,20 @@ LEVEL_TEXT["C09"] = {
     "note": "Schedules sampled by generated tapes; SC interleavings at hook/agent granularity; barrier tree collisions depend on thread-id hashing, which is whatever the OS threads get.",
     "technique": "property-based testing with harness-owned deterministic schedules (virtual threads), history-invariant oracles",
 }
+
+PROPS["C07"] = {
+    "targets": [vt("props/C07_condvar_vt.cpp", 15000, 60, 150000, 600)],
+    "rule": "case = 1..3 waiters x 1..3 generations published by a notifier (notify_all, or notify_one when at most one waiter can be waiting; "
+            "inside or after the user lock) x per waiter 1..2 waits in {wait(l,pred), wait_for(l,inf,pred), wait_until(l,finite,pred), "
+            "wait_until(l,inf) loop, wait(l,stop_token,pred) with a generated request_stop point, wait(l) loop} on condition_variable_any over "
+            "a harness lock whose lock/unlock are decision points x schedule tape; non-trivial iff a notification arrived between a waiter's "
+            "release of its locks and the completion of its suspension (wake-up consumed before suspend) or a timed wait was notified; "
+            "distinct by hash of the case",
+    "floor": {"quick": 200, "thorough": 2000},
+    "assumptions": ["SC interleavings at hook/agent/user-lock granularity", "spurious wake-ups are allowed; only condition_variable_any runs without the runtime (pika::condition_variable + pika::mutex is covered through C01/C02 programs)"],
+}
+LEVEL_TEXT["C07"] = {
+    "text": "The real condition_variable_any (all wait forms incl. stop-token waits) runs on harness-owned virtual threads with the user lock's lock/unlock, the internal cv hook points and every agent operation as schedule decision points. Oracle: every waiter's predicate becomes true at a published generation and every generation is followed by a notification that must reach it, so any all-blocked state is exactly a lost notification; additionally lock ownership on return, predicate/timed/stop-token return values, and 'timeout reported only if the harness clock let the deadline pass'.",
+    "note": "Schedules sampled from generated tapes; pika::condition_variable with pika::mutex needs task ids and is exercised only in the real-runtime programs of C01/C02 (event kinds mutex_cv / timed_cv, channels cv+pika::mutex).",
+    "technique": "property-based testing with harness-owned deterministic schedules (virtual threads), deadlock-as-lost-notification oracle",
+}
